@@ -824,3 +824,67 @@ Section Completeness.
     - intros t ->. cbn [stmt_tag] in E. exists v. cbn [revealed]. auto.
   Qed.
 End Completeness.
+
+(** * request-anchor claim matching *)
+Lemma kind_eqb_eq a b : kind_eqb a b = true <-> a = b.
+Proof. destruct a, b; simpl; split; congruence. Qed.
+
+Lemma stmts_eqb_eq a b : stmts_eqb a b = true <-> a = b.
+Proof. unfold stmts_eqb. destruct (list_eq_dec stmt_eq_dec a b); split; congruence. Qed.
+
+Lemma issuer_allowed_spec rq pc : issuer_allowed rq pc = true <->
+  exists d, In d (rq_issuers rq) /\ did_ip d = pc_issuer pc /\ did_net d = pc_net pc.
+Proof.
+  unfold issuer_allowed. rewrite existsb_exists. split; intros [d [Hi H]]; exists d; split; auto.
+  - apply andb_true_iff in H. rewrite !N.eqb_eq in H. exact H.
+  - apply andb_true_iff. rewrite !N.eqb_eq. exact H.
+Qed.
+
+Theorem claims_match_ok_iff_ : forall rq pc,
+  claims_match rq pc = MOk <->
+  (In (pc_kind pc) (rq_source rq)
+   /\ (exists d, In d (rq_issuers rq) /\ did_ip d = pc_issuer pc /\ did_net d = pc_net pc)
+   /\ map to_requested (pc_stmts pc) = rq_stmts rq).
+Proof.
+  intros rq pc. unfold claims_match.
+  destruct (existsb (kind_eqb (pc_kind pc)) (rq_source rq)) eqn:K; cbn [negb].
+  2:{ split; [discriminate|]. intros [Hk _]. exfalso.
+      assert (existsb (kind_eqb (pc_kind pc)) (rq_source rq) = true)
+        by (apply existsb_exists; exists (pc_kind pc); split; [exact Hk|apply kind_eqb_eq; reflexivity]).
+      congruence. }
+  apply existsb_exists in K as [k [Hk Ek]]. apply kind_eqb_eq in Ek. subst k.
+  destruct (issuer_allowed rq pc) eqn:I; cbn [negb].
+  2:{ split; [discriminate|]. intros [_ [Hi _]]. apply issuer_allowed_spec in Hi. congruence. }
+  apply issuer_allowed_spec in I.
+  destruct (stmts_eqb (map to_requested (pc_stmts pc)) (rq_stmts rq)) eqn:S; cbn [negb].
+  - apply stmts_eqb_eq in S. tauto.
+  - split; [discriminate|]. intros [_ [_ Hs]]. apply stmts_eqb_eq in Hs. congruence.
+Qed.
+
+(** entry-wise matching implies field-wise matching, but not conversely: with the allowed issuers
+    (IP 0, Mainnet) and (IP 1, Testnet) a Testnet credential of IP 0 passes the field-wise test *)
+Theorem issuer_allowed_fieldwise_weaker_ :
+  (forall rq pc, issuer_allowed rq pc = true -> issuer_allowed_fieldwise rq pc = true)
+  /\ (exists rq pc, issuer_allowed_fieldwise rq pc = true /\ issuer_allowed rq pc = false
+                    /\ claims_match rq pc = MFailIssuer).
+Proof.
+  split.
+  - intros rq pc H. apply issuer_allowed_spec in H as [d [Hi [E1 E2]]]. unfold issuer_allowed_fieldwise.
+    apply andb_true_iff. split; apply existsb_exists; exists d; split; auto; apply N.eqb_eq; assumption.
+  - exists (ReqClaims [] [Did 0 1; Did 1 0] [KAccount]), (PresClaims KAccount 0 0 []).
+    repeat split; reflexivity.
+Qed.
+
+Theorem claims_list_match_ok_iff_ : forall rqs pcs,
+  claims_list_match rqs pcs = MOk <-> Forall2 (fun rq pc => claims_match rq pc = MOk) rqs pcs.
+Proof.
+  intros rqs pcs. revert rqs. induction pcs as [|pc pcs IH]; intros [|rq rqs]; cbn [claims_list_match].
+  - split; [constructor|reflexivity].
+  - split; [discriminate|intros H; inversion H].
+  - split; [discriminate|intros H; inversion H].
+  - destruct (claims_match rq pc) eqn:E.
+    + rewrite IH. split; [intros H; constructor; assumption|intros H; inversion H; assumption].
+    + split; [discriminate|intros H; inversion H; congruence].
+    + split; [discriminate|intros H; inversion H; congruence].
+    + split; [discriminate|intros H; inversion H; congruence].
+Qed.
